@@ -60,6 +60,11 @@ def _c19(run, drv, rng, tier):
     props_c19.check(run, drv, rng, tier)
 
 
+def _c12(run, drv, rng, tier):
+    from . import props_c12
+    props_c12.check(run, drv, rng, tier)
+
+
 def _c13(run, drv, rng, tier):
     from . import props_c13
     props_c13.check(run, drv, rng, tier)
@@ -292,5 +297,18 @@ PROPS = {
                 "(label, data reference, index depth, conversion type, sign shifts); distinct by processor tree",
         "assumptions": ["Go is never compiled or executed: Go claims rest on the Go-subset translator for the helpers and on "
                         "structural parsing of the generated text; Go operator semantics as in Model/GoOp.lean"],
+    },
+    "C12": {
+        "modules": ["BpModel.Props.C12"],
+        "theorems": ["Bp.C12.ascending_perm_unique", "Bp.C12.C12_reorder_fields", "Bp.C12.C12_alias", "Bp.C12.C12_alias_encode",
+                     "Bp.C12.C12_renumber", "Bp.C12.C12_numbers_not_on_wire", "Bp.C12.C12_compose"],
+        "explore": _c12,
+        "correspondence": "bytes of generated Python encoders for the original and the rewritten schema on corresponding values",
+        "rule": "valid schemas x random sequences (1-5) of: rename, reorder field declarations, reorder independent definitions, "
+                "alias introduction / inlining, un-nesting, moving a prefix of definitions into an imported file (with/without "
+                "`as`), trivia (comments, blank lines, semicolons), literal -> constant expression, order-preserving "
+                "renumbering; both compiled by the real compiler; distinct by (set of rewrites, message size)",
+        "assumptions": FRONT_ASSUME + ["renaming / scope and file moves / trivia / constant expressions leave the elaborated type unchanged "
+                                       "by construction of the name-free Ty representation; for the real compiler this is established by the correspondence only"],
     },
 }
